@@ -70,12 +70,30 @@ class Kernel:
         except OSError:
             return ""
 
+    def _cpu(self):
+        """CPU seconds the kernel process has used so far (user + system)"""
+        try:
+            with open("/proc/%d/stat" % self.p.pid) as f:
+                fld = f.read().rsplit(")", 1)[1].split()
+            return (int(fld[11]) + int(fld[12])) / os.sysconf("SC_CLK_TCK")
+        except (OSError, IndexError, ValueError):
+            return None
+
     def _readline(self):
+        # "bounded time" is judged on the CPU time the step consumes, not on wall time: a machine shared with other
+        # checks may starve the process for a long time without the program looping
+        waited = 0.0
         while b"\n" not in self.buf:
             r, _, _ = select.select([self.p.stdout], [], [], STEP_TIMEOUT)
             if not r:
-                self.kill()
-                raise KernelHang("no answer from kernel within %.0fs" % STEP_TIMEOUT)
+                waited += STEP_TIMEOUT
+                cpu = self._cpu()
+                cpu0 = getattr(self, "cpu_at_cmd", None)
+                used = (cpu - cpu0) if (cpu is not None and cpu0 is not None) else waited
+                if used >= STEP_TIMEOUT * 0.75 or waited >= 30 * STEP_TIMEOUT:
+                    self.kill()
+                    raise KernelHang("no answer from kernel after %.0fs of CPU time (%.0fs wall)" % (used, waited))
+                continue
             chunk = os.read(self.p.stdout.fileno(), 1 << 16)
             if not chunk:
                 self.dead = True
@@ -88,6 +106,7 @@ class Kernel:
     def cmd(self, line):
         if self.dead:
             raise KernelDied("kernel already dead", self.stderr_text())
+        self.cpu_at_cmd = self._cpu()
         try:
             self.p.stdin.write((line + "\n").encode("latin-1"))
         except BrokenPipeError:
